@@ -93,7 +93,8 @@ fn main() {
                 }
             }
         }
-        if i % 3 == 1 {
+        if i % 7 == 2 || i % 7 == 5 {
+            // (a selector that does not coincide with one of the six generator classes above)
             // explicit angles re-expressed up front (other unit, whole turns added or removed: 450deg,
             // -270deg, 7.85rad ...): the geometric verdict check below then runs on angles outside
             // atan2's range as well ("angles are understood modulo a full turn")
